@@ -32,7 +32,6 @@ OUTSIDE = {
  "r21-C03-v1": "needs a body write that fails below: whether that counts as 'written' is C13's to say (third review; C13 and C14 report it)",
  "r21-C03-v2": "needs a ReturnHandler mapped during the request: none in C03 (C14, whose subject it is, reports it - as C14-v2 of the first round)",
  "r22-C01-v1": "needs AutoHead: C01 registers flat route sets without it (C11 and C10 report it)",
- "r22-C07-v1": "a verdict cache inside the header matcher: shows with two constrained headers whose values read alike side by side - C09, whose subject the gate is, generates such pairs and reports it",
  "r22-C07-v2": "method tables created while serving: a crash under concurrency only (C05 reports it: concurrent map writes)",
  "r22-C09-v1": "a scratch slice shared by the requests that pass one matcher: wrong verdicts under concurrency only (C05 reports it)",
  "r22-C17-v2": "a pooled encode buffer handed back too early: another request's document under concurrency only (C05 reports it)",
